@@ -11,14 +11,16 @@ LEVEL = 'model_checking'
 TARGETS = sched.TARGETS
 ASSUMPTIONS = sched.ASSUMPTIONS + ['initial environment: every task absent, or present with status DONE / FAILED / SKIPPED, arbitrary result '
                                    'and arbitrary earlier clocks (solver-chosen)',
+                                   'a scheduler object used before: covered by induction -- every terminated run is shown to leave the work queue '
+                                   'empty with no unfinished task, which is the state each analysed call starts from',
                                    'deadlock = a reachable state in which no thread can move while some started thread has not finished '
                                    '(covers lost wake-ups, join on a dead worker, workers left blocked after the master returned or raised)']
 OUTSIDE = sched.OUTSIDE
 BOUNDS = {'quick': {'tasks': 2, 'graphs': 'all 3 acyclic labelled graphs on 2 tasks + the three 2-cycles + the hard 3-cycle', 'workers': [1],
                     'plus': '3-task fan-in hard+soft with 1 worker', 'outcomes': KINDS,
                     'depth': 'every run, first K = 22+11N+6W steps'},
-          'thorough': {'tasks': '<= 3', 'graphs': 'all 27 acyclic labelled graphs on 3 tasks (W=1), 2-task graphs W<=3, cycles',
-                       'outcomes': KINDS, 'depth': 'K established by the unwinding query (bounded termination)'}}
+          'thorough': {'tasks': '<= 3', 'graphs': 'all 27 acyclic labelled graphs on 3 tasks (W=1), 2-task graphs W<=2, cycles',
+                       'outcomes': KINDS, 'depth': 'W=1: K = 22+11N+6W established by the unwinding query (every run is complete, bounded termination); W=2: first K steps of every run (unwinding query out of reach)'}}
 EXPLANATION = ('extracted thread automata + z3 bounded model checking (QF_BV): no reachable state of any interleaving is quiescent with an '
                'unfinished thread; in the thorough tier the unwinding query also bounds the length of every run; counterexamples replayed on real threads')
 extra_coverage = sched.extra_coverage
@@ -35,7 +37,17 @@ def confirm(cfg, rp, kinds, extra):
     return None
 
 
-CONFIRM = {Q1: confirm}
+Q2 = 'schedule() came back but the work queue is not back in its pristine state (the next call on the same scheduler starts from it)'
+
+
+def confirm_q2(cfg, rp, kinds, extra):
+    if not rp.get('parked') and (rp.get('queue_items') or rp.get('queue_unfinished')):
+        return (f'schedule() {rp.get("outcome")}, every thread finished, but the work queue holds {rp.get("queue_items")} item(s) and counts '
+                f'{rp.get("queue_unfinished")} unfinished task(s): Queue.join() of the next schedule() call on this scheduler never returns')
+    return None
+
+
+CONFIRM = {Q1: confirm, Q2: confirm_q2}
 NAMES = ['WAITING', 'PENDING', 'DONE', 'FAILED', 'SKIPPED']
 
 
@@ -100,7 +112,11 @@ def prop(an, prod):
     return {'init': init_arbitrary_final, 'may_not_end': True,
             'model_extra': model_extra(cfg), 'replay_kwargs': replay_kwargs_for(cfg),
             # a quiescent state persists (the system stutters), so the last step sees every deadlock of the run
-            'queries': [(Q1, lambda u: u.at(u.K, props.deadlock(prod)), confirm)]}
+            'queries': [(Q1, lambda u: u.at(u.K, props.deadlock(prod)), confirm),
+                        # inductive step for calls on a scheduler that was used before: the analysis starts from an empty queue with
+                        # no unfinished task, so every terminated run has to give that state back
+                        (Q2, lambda u: u.at(u.K, z3.And(props.all_terminal(prod),
+                                                        z3.Or(prod.pre['qh'] != prod.pre['qt'], prod.pre['qu'] != 0))), confirm_q2)]}
 
 
 def replay_kwargs(extra):
